@@ -88,9 +88,10 @@ Theorem C07_threaded_shutdown_delivers : forall c sel s,
 Proof. exact threaded_shutdown_delivers. Qed.
 Print Assumptions C07_threaded_shutdown_delivers.
 
-(* ---- non-vacuity: upstream answers, the client accepts only part, upstream closes (reads torn down,
-   NO teardown yet), the next upstream flush fails with a broken pipe (still no teardown: this is the
-   repaired path), then the client drains and the call accepting the last byte returns Teardown *)
+(* ---- non-vacuity: the origin answers 413 while the request is still being sent, the client accepts only
+   one byte, the next upstream flush fails with a broken pipe (NO teardown: this is the repaired path,
+   reads and writes are torn down and the handler waits), then the client drains and the call
+   accepting the last byte returns Teardown *)
 Definition ex_cfg : cfg := mkCfg 4 (bs "ACK") 10240 true.
 Definition ev_ (cr cw ur uw : bool) (cs us : outcome) (crv urv : recv_res) (rq : req_outcome) : event :=
   mkEvent 7 cr cw ur uw cs us crv urv rq DNothing.
